@@ -76,7 +76,7 @@ func (c *baseConn) readPkt(b []byte) (int, udp.UDPAddr, snet.DataplanePath, net.
 			continue // ignore non-UDP payload
 		}
 		srcAddr, err := scionLayer.SrcAddr()
-		if err != nil {
+		if err != nil || srcAddr.Type() != addr.HostTypeIP {
 			continue // ignore unexpected address type
 		}
 		remoteAddr := udp.UDPAddr{
